@@ -90,7 +90,7 @@ func TestC06_Controlled(t *testing.T) {
 		n := rapid.IntRange(1, 40).Draw(t, "nactions")
 		var actions []vk.AsyncAction
 		for i := 0; i < n; i++ {
-			actions = append(actions, vk.AsyncAction{K: rapid.SampledFrom([]string{"ev", "raw", "step", "ev", "raw", "step", "ev"}).Draw(t, "a")})
+			actions = append(actions, vk.AsyncAction{K: rapid.SampledFrom([]string{"ev", "raw", "step", "ev", "raw", "step", "ev", "dis", "raw0", "evl"}).Draw(t, "a")})
 		}
 		vk.Sample(map[string]any{"setup": setup.String(), "actions": actionString(actions)})
 		check(t, setup, actions)
